@@ -415,6 +415,8 @@ struct Tree
   std::map<std::string, std::string> content; ///< canonical path of every regular file -> bytes
   std::vector<std::string> secrets;     ///< canonical paths of regular files outside every region root
   std::vector<std::string> outsideDirs; ///< canonical directories outside
+  std::string caseLeaf[3];              ///< OUTSIDE directory spelled like the region root but for letter case of the last component
+  std::string caseParent[3];            ///< ... of the component above it (<base>/ROOT/static next to <base>/root/static)
   int nextId = 1;
   int skipped = 0;
   std::vector<std::pair<std::string, char>> created; ///< what this case added on top of the shared skeleton
@@ -527,7 +529,7 @@ struct Tree
     // spelling 4: "jump" is a symlink to <root>/cfg/deep (resp. <extdir>/css/vendor), so the ".."s are
     // physical and lead to the root although the spelling lexically stays below outside/
     static const char *rootSp[] = {"/root", "/rootlink", "/.//root/./", "/outside/../root", "/outside/jump/../.."};
-    static const char *extSp[] = {"/extreal", "/extlink", "//extreal/.//", "/outside/nested/../../extlink/", "/outside/xjump/../.."};
+    static const char *extSp[] = {"/ed/extreal", "/extlink", "//ed/extreal/.//", "/outside/nested/../../extlink/", "/outside/xjump/../.."};
     rootGiven = C + rootSp[c.rootSpelling % 5];
     extGiven = C + extSp[c.extSpelling % 5];
     given[R_STATIC] = rootGiven + "/static";
@@ -565,14 +567,14 @@ struct Tree
     cfg = c;
     C = newCaseDir();
     if (!mkd(C + "/root") || !mkd(C + "/outside") || !mkd(C + "/outside/nested") || !mkd(C + "/srv")) return false;
-    if (!mkl("root", C + "/rootlink") || !mkl("extreal", C + "/extlink")) return false;
+    if (!mkl("root", C + "/rootlink") || !mkd(C + "/ed") || !mkl("ed/extreal", C + "/extlink")) return false;
     if (!mkd(C + "/root/cfg") || !mkd(C + "/root/cfg/deep") || !mkl(C + "/root/cfg/deep", C + "/outside/jump") ||
-        !mkd(C + "/extreal") || !mkd(C + "/extreal/css") || !mkd(C + "/extreal/css/vendor") ||
-        !mkl("../extreal/css/vendor", C + "/outside/xjump"))
+        !mkd(C + "/ed/extreal") || !mkd(C + "/ed/extreal/css") || !mkd(C + "/ed/extreal/css/vendor") ||
+        !mkl("../ed/extreal/css/vendor", C + "/outside/xjump"))
       return false;
     canon[R_STATIC] = c.staticLink ? C + "/srv/static_real" : C + "/root/static";
     canon[R_TEMPL] = c.templLink ? C + "/srv/tpl" : C + "/root/templates";
-    canon[R_EXT] = C + "/extreal";
+    canon[R_EXT] = C + "/ed/extreal";
     for (int r = 0; r < 3; ++r)
       if (!mkd(canon[r])) return false;
     if (c.staticLink && !mkl("../srv/static_real", C + "/root/static")) return false;
@@ -596,6 +598,27 @@ struct Tree
           !secret(canon[r] + "-secret"))
         return false;
       outsideDirs.push_back(canon[r] + "_old");
+      // neighbours that equal the region root up to letter case (a case-sensitive file system keeps them apart)
+      auto upper = [](std::string x)
+      {
+        for (auto &ch : x)
+          if (ch >= 'a' && ch <= 'z') ch = (char)(ch - 32);
+        return x;
+      };
+      const std::size_t p1 = canon[r].find_last_of('/');
+      const std::string dir = canon[r].substr(0, p1), leaf = canon[r].substr(p1 + 1);
+      const std::size_t p2 = dir.find_last_of('/');
+      std::string leafVar = upper(leaf);
+      if (r == R_TEMPL) leafVar = leaf.substr(0, 1) == "t" ? "T" + leaf.substr(1) : leafVar; // Templates / Tpl: mixed case
+      caseLeaf[r] = dir + "/" + leafVar;
+      caseParent[r] = dir.substr(0, p2) + "/" + upper(dir.substr(p2 + 1)) + "/" + leaf;
+      if (!mkd(dir.substr(0, p2) + "/" + upper(dir.substr(p2 + 1)))) return false;
+      for (const std::string &v : {caseLeaf[r], caseParent[r]})
+      {
+        if (!mkd(v) || !mkd(v + "/css") || !secret(v + "/secret.txt") || !secret(v + "/index.html", 4) || !secret(v + "/css/site.css"))
+          return false;
+        outsideDirs.push_back(v);
+      }
     }
     for (int r = 0; r < 3; ++r)
     {
@@ -616,7 +639,11 @@ struct Tree
           !addLink(r, "sibfile", relPath(P, P + "-secret"), "file->sibling-prefix") ||
           !addLink(r, "in.txt", "css/site.css", "file->inside") || !addLink(r, "indir", "css", "dir->inside") ||
           !addLink(r, "dangling", "no/such/file", "dangling") || !addLink(r, "loop", "loop", "loop") ||
-          !addLink(r, "up", "..", "dir->parent") || !addLink(r, "self", ".", "dir->self"))
+          !addLink(r, "up", "..", "dir->parent") || !addLink(r, "self", ".", "dir->self") ||
+          !addLink(r, "casefile", caseLeaf[r] + "/secret.txt", "file->case-variant of the root (abs)") ||
+          !addLink(r, "casefilerel", relPath(P, caseParent[r] + "/secret.txt"), "file->case-variant of the root's parent (rel)") ||
+          !addLink(r, "casedir", relPath(P, caseLeaf[r]), "dir->case-variant of the root (rel)") ||
+          !addLink(r, "casedirup", caseParent[r], "dir->case-variant of the root's parent (abs)"))
         return false;
       skeletonEntries[r] = entries[r].size();
     }
@@ -872,7 +899,7 @@ inline std::string genName(const Tree &t, int r, const Row &row)
     static const std::vector<std::string> sp = [] {
       std::vector<std::string> v = {".", "..", "...", "", "....", ". ", "..;", "%2e%2e", "%2E%2E", "..%2f", "%2e", "..\\", "\\",
                                     "..\\..", "\xc3\xa9", "\xc0\xaf", "\xff", "static", "templates", "outside", "secret.txt",
-                                    "root", "~", "*", "extreal", "srv", ".. ", " ..", "..\t", "%00", "%5c", "%2f"};
+                                    "root", "~", "*", "extreal", "srv", "ed", "STATIC", "ROOT", ".. ", " ..", "..\t", "%00", "%5c", "%2f"};
       v.push_back(std::string(300, 'Q'));
       v.push_back(std::string(255, 'q'));
       v.push_back(std::string("a\0b", 3));
